@@ -52,6 +52,14 @@ def gen_case(rng):
     for a in acts:
         if isinstance(a, tuple):
             real[a[1]]["ops"].insert(0, a[2])
+    # TRACE_host_push/pop_state need the host containers: only legal when some option makes the platform traced
+    # (TRACE_needs_platform); without it the call aborts with "container not found", which is a usage error, not a trace
+    for a in real:      # a kill date before the creation date is a harness artefact (killer acts on a not-yet-created actor)
+        if a["kill"] >= 0 and a["kill"] <= a["start"]:
+            a["kill"] = round(a["start"] + 0.5, 3)
+    if not any(o in cfg for o in OPTS[:4]):
+        for a in real:
+            a["ops"] = [o for o in a["ops"] if o[0] not in ("u", "o")]
     return {"cfg": cfg, "actors": real}
 
 
